@@ -33,6 +33,26 @@ func VerifE2ESetGate(f func(point string)) {
 	verifGateFn.Store(&f)
 }
 
+var verifGateReqFn atomic.Pointer[func(point string, req *model.PushRequest)]
+
+// verifGateReq is called at the entry of ConfigUpdate ("configupdate"): the harness can park the
+// caller (an event handler of a registry or of the config store) to make "the state is already
+// visible to new push contexts, its event has not been delivered yet" a scripted situation.
+func verifGateReq(point string, req *model.PushRequest) {
+	if f := verifGateReqFn.Load(); f != nil {
+		(*f)(point, req)
+	}
+}
+
+// VerifE2ESetReqGate installs the request gate callback (nil removes it).
+func VerifE2ESetReqGate(f func(point string, req *model.PushRequest)) {
+	if f == nil {
+		verifGateReqFn.Store(nil)
+		return
+	}
+	verifGateReqFn.Store(&f)
+}
+
 // VerifE2EGlobalPushContext exposes globalPushContext (the snapshot new connections are initialised from).
 func VerifE2EGlobalPushContext(s *DiscoveryServer) *model.PushContext {
 	return s.globalPushContext()
